@@ -378,7 +378,7 @@ theorem prepare_quota_total (o : EpochOpts W) (p p1 : Pop W) (ex : ExecState) (r
         simp only [Except.ok.injEq, Prod.mk.injEq] at h
         obtain ⟨⟨rfl, _⟩, _⟩ := h
         -- the sorted list with the champion flag: same quotas, a permutation of pz.species
-        have hsp : (sortSpeciesDesc pz.species).Perm pz.species := goInsertionSort_perm _ _
+        have hsp : (sortSpeciesDesc pz.species).Perm pz.species := goSort_perm _ _
         have hsorted1_tot : quotaSum (setTopOrg best (fun t => { t with isPopChampion := true }) :: (sortSpeciesDesc pz.species).tail) = o.popSize := by
           rw [hsorted, List.tail_cons, quotaSum_cons, quota_setTopOrg, ← quotaSum_cons, ← hsorted, quotaSum_perm hsp, hpz_tot]
         have hsorted1_nn : ∀ s ∈ setTopOrg best (fun t => { t with isPopChampion := true }) :: (sortSpeciesDesc pz.species).tail, 0 ≤ s.expectedOffspring := by
